@@ -163,7 +163,7 @@ func (s *sim) violate(class, key, f string, a ...any) {
 	if !s.failed.CompareAndSwap(false, true) {
 		return
 	}
-	if !s.cfg.Report[class] {
+	if !s.cfg.Report[class] && !s.cfg.Report[class+"/"+key] {
 		return
 	}
 	s.logMu.Lock()
